@@ -78,7 +78,7 @@ pub fn gen_program(rng: &mut Rng, small: bool) -> SymProgram {
         }
         3 => {
           s.push_str(&format!(
-            "{ex}class {nm} {{\n  static s: number = 1;\n  static sm(): void {{}}\n  p: string = \"\";\n  #priv = 1;\n  private tsPriv = 2;\n  constructor(public q: number, readonly r?: string) {{}}\n  m(): void {{}}\n  m2(a: string): void;\n  m2(a: number): void;\n  m2(a: any): void {{}}\n  get g(): number {{ return 1; }}\n  set g(v: number) {{}}\n  static {{ }}\n  [Symbol.iterator](): void {{}}\n  \"quoted\": number = 1;\n  123: number = 2;\n}}\n"
+            "{ex}class {nm} {{\n  static s: number = 1;\n  static sm(): void {{}}\n  p: string = \"\";\n  #priv = 1;\n  private tsPriv = 2;\n  constructor(public q: number, readonly r?: string) {{}}\n  m(): void {{}}\n  m2(a: string): void;\n  m2(a: number): void;\n  m2(a: any): void {{}}\n  get g(): number {{ return 1; }}\n  set g(v: number) {{}}\n  static {{ }}\n  [Symbol.iterator](): void {{}}\n  static [Symbol.hasInstance](x: unknown): boolean {{ return true; }}\n  static readonly [Symbol.species] = 1;\n  static [\"lit\" + 1]: number = 3;\n  \"quoted\": number = 1;\n  123: number = 2;\n}}\n"
           ));
         }
         4 => {
@@ -149,6 +149,7 @@ pub fn gen_program(rng: &mut Rng, small: bool) -> SymProgram {
     }
     bodies[i] = s;
   }
+  let mut back_stars: Vec<(usize, usize)> = vec![];
   for i in 0..n {
     let mut s = String::new();
     // imports (aliases, namespaces, defaults, type-only, import equals)
@@ -208,6 +209,13 @@ pub fn gen_program(rng: &mut Rng, small: bool) -> SymProgram {
         _ => s.push_str(&format!("export * from \"{}\";\n", rel(rng.below(n)))),
       }
     }
+    // a named re-export (same name) through a module that star re-exports
+    // this one back: `export { cyc } from "./t"` + t: `export * from "./this"`
+    if n > 1 && rng.chance(1, 4) {
+      let t = (i + 1 + rng.below(n - 1)) % n;
+      s.push_str(&format!("export {{ cyc{} }} from \"{}\";\n", i, rel(t)));
+      back_stars.push((t, i));
+    }
     // alias chains that may loop: export { x as y } from another module's alias
     if rng.chance(1, 3) {
       let t = rng.below(n);
@@ -230,6 +238,9 @@ pub fn gen_program(rng: &mut Rng, small: bool) -> SymProgram {
       s.push_str("declare module \"ambient-mod\" {\n  export const amb: number;\n}\n");
     }
     files.push((path(i), s));
+  }
+  for (t, i) in back_stars {
+    files[t].1.push_str(&format!("export * from \"{}\";\n", rel(i)));
   }
   if !small && rng.chance(1, 4) {
     files.push(("file:///data.json".to_string(), "{\"a\": 1}".to_string()));
